@@ -409,8 +409,10 @@ static int gal4_load(struct module_data *m, HIO_HANDLE *f, const int start)
 	ret |= libxmp_iff_register(handle, "PATT", get_patt_cnt);
 	ret |= libxmp_iff_register(handle, "INST", get_inst_cnt);
 
-	if (ret != 0)
+	if (ret != 0) {
+		libxmp_iff_release(handle);
 		return -1;
+	}
 
 	libxmp_iff_set_quirk(handle, IFF_LITTLE_ENDIAN);
 	libxmp_iff_set_quirk(handle, IFF_CHUNK_TRUNC4);
@@ -447,8 +449,10 @@ static int gal4_load(struct module_data *m, HIO_HANDLE *f, const int start)
 	ret = libxmp_iff_register(handle, "PATT", get_patt);
 	ret |= libxmp_iff_register(handle, "INST", get_inst);
 
-	if (ret != 0)
+	if (ret != 0) {
+		libxmp_iff_release(handle);
 		return -1;
+	}
 
 	libxmp_iff_set_quirk(handle, IFF_LITTLE_ENDIAN);
 	libxmp_iff_set_quirk(handle, IFF_CHUNK_TRUNC4);
